@@ -160,6 +160,9 @@ func (t *Transport) RoundTrip(req *http.Request) (*http.Response, error) {
 			Header: http.Header{"Content-Type": {"application/json"}}, Request: req,
 			Body: io.NopCloser(strings.NewReader(`{"error":"invalid_request","error_description":"c20 redirect probe"}`))}, nil
 	}
+	if req.Method == "GET" && (req.URL.Host == KeysHost || strings.Contains(req.URL.Path, "keys")) {
+		countKeyFetch(req.URL)
+	}
 	t.mu.RLock()
 	h := t.hosts[req.URL.Host]
 	t.mu.RUnlock()
@@ -218,6 +221,8 @@ type Inst struct {
 	TE      tokenexchange.TokenExchanger
 	TS      profile.TokenSource
 	V       *rp.IDTokenVerifier // kind ks: a stand-alone verifier over a stand-alone remote key set
+	KS      oidc.KeySet         // kind ks: the key set itself (with or without a verifier)
+	Shape   string              // kind ks over the key host: the published key-set shape
 	// provider / legacy: the instance's own storage and the paths the application configured
 	Core                          *refstore.Core
 	AuthPath, TokenPath, KeysPath string
@@ -251,6 +256,8 @@ type World struct {
 	Quiesce func()
 	// one signer per key, shared by every goroutine like the signer an application holds
 	AppSigner, SvcSigner jose.Signer
+	// caller-owned key lists (one per key-set shape), handed to oidc.FindMatchingKey / FindKey as they are
+	KeyLists map[string]*[]jose.JSONWebKey
 }
 
 // Hooks let the checker observe objects at the moment they come into existence
@@ -318,6 +325,7 @@ func Build(h *Hooks) *World {
 	Net.Register(rig.Host, w.R.H[0])
 	Net.Register(LegacyHost, w.R.H[1])
 	registerTenants()
+	registerKeyHost()
 	w.CS = &http.Client{Transport: Net, CheckRedirect: AllowRedirects} // the caller chose: own redirect policy, no timeout
 	var err error
 	w.AppSigner, err = client.NewSignerFromPrivateKeyByte(keys.Get("p256b").PEM, "jk2")
@@ -343,6 +351,10 @@ func Build(h *Hooks) *World {
 	w.newTE("TE2", "base:TE2", "jwt+legacy", false)
 	w.newTS("TS0", "base:TS0", "plain")
 	w.newKS("KS0", "base:KS0", false)
+	w.newShapeKS("KS1", "mixed", false)
+	w.newShapeKS("KS2", "nokid", false)
+	w.newShapeKS("KS3", "pair", true)
+	w.newKeyLists()
 	return w
 }
 
@@ -582,7 +594,7 @@ func (w *World) newKS(name, ref string, variant bool) {
 		ks = rp.NewRemoteKeySet(httphelper.DefaultHTTPClient, rig.Issuer+"/keys")
 		v = rp.NewIDTokenVerifier(rig.Issuer, WebID, ks, rp.WithNonce(func(context.Context) string { return "n-1" }))
 	}
-	w.add(&Inst{Name: name, Kind: "ks", Ref: ref, Obj: v, V: v, Issuer: rig.Issuer})
+	w.add(&Inst{Name: name, Kind: "ks", Ref: ref, Obj: v, V: v, KS: ks, Issuer: rig.Issuer})
 }
 
 // newProvider constructs one more provider over its own fresh storage.
@@ -1401,6 +1413,8 @@ func buildOps() []Op {
 			return "ok"
 		}},
 	)
+	ops = append(ops, refusedOps()...)
+	ops = append(ops, keyOps()...)
 	return append(ops, faultOps()...)
 }
 
@@ -1498,8 +1512,21 @@ func (w *World) Behaviour(i *Inst) map[string]string {
 		both("discovery", func() { client.Discover(w.Ctx, rig.Issuer, i.TS.(client.TokenEndpointCaller).HttpClient()) })
 		both("token", func() { i.TS.TokenCtx(w.Ctx) })
 	case "ks":
-		out["endpoints:client"] = i.V.Issuer + " " + i.V.ClientID
-		both("keys", func() { i.V.KeySet.VerifySignature(w.Ctx, unknownKidJWS) })
+		if i.V != nil {
+			out["endpoints:client"] = i.V.Issuer + " " + i.V.ClientID
+		}
+		both("keys", func() { i.KS.VerifySignature(w.Ctx, unknownKidJWS) })
+		if i.Shape != "" {
+			// the same verification in a fresh history: every token (with and without kid, of each key
+			// type) verifies against this key set whatever was verified before
+			for _, t := range sigToks {
+				_, err := i.KS.VerifySignature(w.Ctx, t.jws())
+				out["verify:"+t.name] = errClass(err)
+			}
+		}
+	case "keylist":
+		// the same lookups over the caller-owned lists find the same keys as in a fresh history
+		out["verify:lookups"] = w.lookups()
 	case "rs":
 		out["endpoints:client"] = i.RS.IntrospectionURL() + " " + i.RS.TokenEndpoint()
 		both("discovery", func() { client.Discover(w.Ctx, rig.Issuer, i.RS.HttpClient()) })
